@@ -40,7 +40,7 @@ import (
 )
 
 func iterateTime(context *Context, v reflect.Value) {
-	context.EventReceiver.OnTime(common.GoTimeToCompactTime(v.Interface().(time.Time)))
+	context.EventReceiver.OnTime(compact_time.AsCompactTime(v.Interface().(time.Time)))
 }
 
 func iteratePTime(context *Context, v reflect.Value) {
@@ -48,7 +48,7 @@ func iteratePTime(context *Context, v reflect.Value) {
 		context.NotifyNil()
 	} else {
 		t := v.Interface().(*time.Time)
-		context.EventReceiver.OnTime(common.GoTimeToCompactTime(*t))
+		context.EventReceiver.OnTime(compact_time.AsCompactTime(*t))
 	}
 }
 
